@@ -304,6 +304,44 @@ fn build_from_tuple(xs: &[Value], t: &Value) -> Value {
     v
 }
 
+/// Builds the chain from placeholder cells that are then overwritten through
+/// the four mutators (set_car / car_mut for elements, set_cdr / cdr_mut for links).
+fn build_by_mutation(xs: &[Value], t: &Value) -> Value {
+    if xs.is_empty() {
+        return t.clone();
+    }
+    let mut head = lexpr::Cons::new(Value::symbol("placeholder"), Value::Nil);
+    {
+        let mut cur: &mut lexpr::Cons = &mut head;
+        for (i, x) in xs.iter().enumerate() {
+            if i % 2 == 0 {
+                cur.set_car(x.clone());
+            } else {
+                *cur.car_mut() = x.clone();
+            }
+            if i + 1 == xs.len() {
+                if i % 3 == 0 {
+                    cur.set_cdr(t.clone());
+                } else {
+                    *cur.cdr_mut() = t.clone();
+                }
+                break;
+            }
+            let next = lexpr::Cons::new(Value::Bool(false), Value::symbol("unset"));
+            if i % 3 == 1 {
+                cur.set_cdr(Value::Cons(next));
+            } else {
+                *cur.cdr_mut() = Value::Cons(next);
+            }
+            cur = match cur.cdr_mut() {
+                Value::Cons(c) => c,
+                _ => unreachable!("harness: the link just stored is a cons"),
+            };
+        }
+    }
+    Value::Cons(head)
+}
+
 fn case_list(rep: &mut Report, rng: &mut Rng, cfg: &GenCfg, tb: &Tables, max_len: usize) {
     let n = match rng.below(10) {
         0 => 0,
@@ -321,6 +359,7 @@ fn case_list(rep: &mut Report, rng: &mut Rng, cfg: &GenCfg, tb: &Tables, max_len
             ("Value::append", Value::append(xs.clone(), t.clone())),
             ("nested Value::cons", build_cons_nested(&xs, &t)),
             ("nested From<(T,U)>", build_from_tuple(&xs, &t)),
+            ("Cons::new + set_car/car_mut/set_cdr/cdr_mut", build_by_mutation(&xs, &t)),
         ];
         if matches!(t, Value::Null) {
             r.push(("Value::list", Value::list(xs.clone())));
